@@ -162,6 +162,11 @@ func (v4proto) BuildRequest(xid uint32, serial uint32) (interface{}, []byte) {
 	if serial%4 == 0 {
 		p.NumSeconds = 3
 	}
+	if serial%8 == 3 {
+		// a request sent on behalf of another hardware address (a proxy, a test tool): replies are
+		// still filtered by the address the client was created with
+		p.ClientHWAddr = net.HardwareAddr{0x02, 0x00, 0x00, 0xaa, 0xbb, 0x77}
+	}
 	if k := (serial / 2) % 6; k > 0 {
 		// not only DISCOVER: SendAndRead sends any message
 		p.UpdateOption(dhcpv4.OptMessageType([]dhcpv4.MessageType{dhcpv4.MessageTypeDiscover, dhcpv4.MessageTypeRequest, dhcpv4.MessageTypeInform,
@@ -204,6 +209,9 @@ func (v4proto) BuildReply(reqWire []byte, kind replyKind, serial uint32, altXid 
 			rep.ClientHWAddr = append(append(net.HardwareAddr{}, clientHW...), make([]byte, 10)...)
 		case 0:
 			rep.ClientHWAddr = otherHW
+			if !bytes.Equal(req.ClientHWAddr, clientHW) {
+				rep.ClientHWAddr = append(net.HardwareAddr(nil), req.ClientHWAddr...) // the request's own (foreign) address
+			}
 		case 1:
 			// the client's address is a proper prefix of this one
 			rep.ClientHWAddr = append(append(net.HardwareAddr{}, clientHW...), 0x00, 0x00)
